@@ -93,9 +93,24 @@ func c08Selector(c *Ctx, find, peek *ssa.Function, peekT *types.Named) {
 	// events: calls of Peek
 	var peeks []ssa.Instruction
 	var canHandles []*ssa.Call
+	// a helper of the package that does the peeking for the selector (wraps the connection, calls Peek once outside any
+	// loop, returns the peeking connection and the peeked bytes): its call is the peek event
+	peekHelper := map[ssa.Instruction]*ssa.Call{} // helper call in findService -> the Peek call inside the helper
 	for _, call := range Calls(find) {
 		if call.Common().StaticCallee() == peek {
 			peeks = append(peeks, call)
+		}
+		if hf := call.Common().StaticCallee(); hf != nil && hf != peek && InRepo(hf) && hf.Blocks != nil && PkgOf(hf) == PkgOf(find) {
+			var inner []*ssa.Call
+			for _, c2 := range Calls(hf) {
+				if cv, ok := c2.(*ssa.Call); ok && c2.Common().StaticCallee() == peek {
+					inner = append(inner, cv)
+				}
+			}
+			if cv, isCall := call.(*ssa.Call); isCall && len(inner) == 1 && !InLoop(inner[0].Block()) {
+				peeks = append(peeks, call)
+				peekHelper[cv] = inner[0]
+			}
 		}
 		if call.Common().IsInvoke() && call.Common().Method.Name() == "CanHandle" {
 			if cv, ok := call.(*ssa.Call); ok {
@@ -205,6 +220,46 @@ func c08Selector(c *Ctx, find, peek *ssa.Function, peekT *types.Named) {
 					}
 					okArg = good
 				}
+			}
+		}
+		if !okArg && len(peekHelper) > 0 {
+			// CanHandle(payload) with payload = result #k of the peeking helper, which returns buffer[:n] of its own Peek
+			good := len(leaves(arg)) > 0
+			for _, lf := range leaves(arg) {
+				if IsNilConst(lf) {
+					continue // the not-yet-peeked value of the cell (cannot reach here when the peek guard holds)
+				}
+				ex, isEx := lf.(*ssa.Extract)
+				if !isEx {
+					good = false
+					continue
+				}
+				hc, _ := ex.Tuple.(*ssa.Call)
+				inner := peekHelper[hc]
+				if hc == nil || inner == nil {
+					good = false
+					continue
+				}
+				hf := hc.Call.StaticCallee()
+				for _, r := range Returns(hf) {
+					rv := RetVals(r)
+					if ex.Index >= len(rv) || IsNilConst(rv[ex.Index]) {
+						continue
+					}
+					s2, isSl := rv[ex.Index].(*ssa.Slice)
+					okR := isSl && s2.Low == nil && s2.High != nil && sliceBase(s2.X) == sliceBase(inner.Call.Args[1])
+					if okR {
+						e2, isE2 := s2.High.(*ssa.Extract)
+						okR = isE2 && e2.Index == 0 && e2.Tuple == ssa.Value(inner)
+					}
+					if !okR {
+						good = false
+						why = "the peeking helper " + shortFn(hf) + " does not return buffer[:n] of its Peek: " + Render(rv[ex.Index])
+					}
+				}
+			}
+			if good {
+				okArg = true
 			}
 		}
 		c.Check(okArg, "detector-sees-peeked-bytes", key, p.InstrPos(ch), "CanHandle(buffer[:n]) with n = Peek's count", why)
@@ -362,6 +417,19 @@ func c08Peek(c *Ctx, peek, pread *ssa.Function, peekT *types.Named) {
 		}
 	}
 	if bufIdx < 0 && connIdx >= 0 {
+		// form B: a bytes.Buffer as the replay store
+		for i := 0; i < st.NumFields(); i++ {
+			if n := NamedOf(st.Field(i).Type()); n != nil && n.Obj().Pkg() != nil && n.Obj().Pkg().Path() == "bytes" && n.Obj().Name() == "Buffer" {
+				c08PeekFormB(c, peek, pread, i)
+				c.Floor("peek-replay", 2, "Peek write, Read replay")
+				c.Floor("replay-before-delegate", 2, "delegate guard + buffer")
+				c.Floor("replay-count", 2, "two return arms")
+				c08PeekLocked(c, peek, pread)
+				return
+			}
+		}
+	}
+	if bufIdx < 0 && connIdx >= 0 {
 		// a fixed-size replay store ([N]byte with offsets): whatever Peek reads off the socket has to fit into it
 		arrIdx := -1
 		for i := 0; i < st.NumFields(); i++ {
@@ -393,6 +461,7 @@ func c08Peek(c *Ctx, peek, pread *ssa.Function, peekT *types.Named) {
 	if !c.Anchor(bufIdx >= 0 && connIdx >= 0, "peek-replay", "peekConnection buffer and embedded conn fields") {
 		return
 	}
+	offIdx := offsetFieldOf(pread, st)
 	isBufLoad := func(v ssa.Value, fn *ssa.Function) bool {
 		ld, ok := v.(*ssa.UnOp)
 		if !ok || ld.Op != token.MUL {
@@ -457,6 +526,14 @@ func c08Peek(c *Ctx, peek, pread *ssa.Function, peekT *types.Named) {
 		}
 	}
 	c.Floor("peek-replay", 2, "Peek append, Read re-slice")
+	if offIdx >= 0 {
+		// form O: the slice is kept whole and Read advances an offset
+		c08PeekFormO(c, pread, bufIdx, offIdx)
+		c.Floor("replay-before-delegate", 2, "delegate guard + buffer")
+		c.Floor("replay-count", 2, "two return arms")
+		c08PeekLocked(c, peek, pread)
+		return
+	}
 	// Read: delegate only when the buffer is empty; buffered arm returns (copied count, nil)
 	for _, call := range Calls(pread) {
 		cc := call.Common()
@@ -503,7 +580,12 @@ func c08Peek(c *Ctx, peek, pread *ssa.Function, peekT *types.Named) {
 		}
 	}
 	c.Floor("replay-count", 2, "two return arms")
-	// locking: Peek and Read hold pc.m (Lock at entry, deferred Unlock)
+	c08PeekLocked(c, peek, pread)
+}
+
+// c08PeekLocked: Peek and Read hold pc.m (Lock at entry, deferred Unlock)
+func c08PeekLocked(c *Ctx, peek, pread *ssa.Function) {
+	p := c.P
 	for _, fn := range []*ssa.Function{peek, pread} {
 		lock, unlock := false, false
 		for _, call := range Calls(fn) {
